@@ -58,6 +58,12 @@ def rotation_set(rng, name):
 
     if name == "none":
         return None, [Rotation.identity()]
+    if name == "quarter":
+        rots = [Rotation.identity(), Rotation.from_rotvec([np.pi / 2, 0, 0]), Rotation.from_rotvec([-np.pi / 2, 0, 0]),
+                Rotation.from_rotvec([0, 0, np.pi / 2])]
+        order = rng.permutation(4)
+        rots = [rots[i] for i in order]
+        return Rotation.from_quat(np.stack([r.as_quat() for r in rots])), rots
     if name == "range":
         step = float(rng.choice([15.0, 20.0]))
         arg = ((step, step), (0.0, 0.0), (step, step)) if rng.random() < 0.5 else ((0, 0), (step, step), (step, step))
@@ -182,7 +188,14 @@ def run(case):
         grp = loader.groupby("g").align(tmpl, max_shifts=(ms_nm,) * 3, alignment_model=Model, **kw)
         out = Molecules.concat([ld.molecules for _, ld in grp])
     elif kind == "multi":
-        out = loader.align_multi_templates([tmpl, tmpl_b], max_shifts=ms_nm, alignment_model=Model, **kw).molecules
+        how = int(rng.integers(0, 3))
+        case.count(f"multi_entry_{how}")
+        if how == 0:
+            out = loader.align_multi_templates([tmpl, tmpl_b], max_shifts=ms_nm, alignment_model=Model, **kw).molecules
+        elif how == 1:   # a list of templates given to align()
+            out = loader.align([tmpl, tmpl_b], max_shifts=ms_nm, alignment_model=Model, **kw).molecules
+        else:            # a 4-D stack given to align()
+            out = loader.align(np.stack([tmpl, tmpl_b]), max_shifts=(ms_nm,) * 3, alignment_model=Model, **kw).molecules
     else:
         out = loader.align_no_template(max_shifts=1.0 * s, alignment_model=Model, output_shape=shape).molecules
     if not case.check(len(out) == nm and "uid" in out.features.columns, "alignment lost molecules or features",
